@@ -48,6 +48,13 @@ pub fn run_case<V: PartialEq + Debug>(
     read: impl Fn(&mut Bits) -> Result<V, Error>,
     value: &V,
 ) {
+    // the interpreter runs about four orders of magnitude slower: every fifth case of the reduced enumeration
+    if cfg!(miri) {
+        static MIRI_COUNTER: std::sync::atomic::AtomicU64 = std::sync::atomic::AtomicU64::new(0);
+        if MIRI_COUNTER.fetch_add(1, std::sync::atomic::Ordering::Relaxed) % 5 != 0 {
+            return;
+        }
+    }
     rep.eval();
     let sig = |what: &str| format!("c10:{}:{}:{}", c.prim, c.class, what);
     // start at a non-aligned position so every primitive is exercised mid-byte as well
@@ -654,6 +661,8 @@ pub fn run(rep: &mut Report, tier: &str, seed: u64, shard: u64, nshards: u64, mi
     }
     // boundary families
     let pool: Vec<i64> = vgen::gen::boundary_pool().into_iter().map(|v| v as i64).collect();
+    // under the interpreter a thinned pool (the pair loops below are quadratic in it)
+    let pool: Vec<i64> = if miri { pool.into_iter().step_by(11).collect() } else { pool };
     if mine(1) {
         for &a in &pool {
             for &b in &pool {
@@ -706,7 +715,7 @@ pub fn run(rep: &mut Report, tier: &str, seed: u64, shard: u64, nshards: u64, mi
     // 3. length determinants
     if mine(3) {
         for &(lb, ub) in BOUND_TABLE {
-            let mut lens: Vec<u64> = (0..=300).collect();
+            let mut lens: Vec<u64> = if miri { (0..=300).step_by(13).chain([127, 128, 129]).collect() } else { (0..=300).collect() };
             lens.extend(large_lengths());
             if let Some(u) = ub {
                 lens.extend([u.saturating_sub(1), u, u.saturating_add(1)]);
@@ -726,7 +735,7 @@ pub fn run(rep: &mut Report, tier: &str, seed: u64, shard: u64, nshards: u64, mi
             continue;
         }
         for ext in [false, true] {
-            for idx in 0..=std + 130 {
+            for idx in (0..=std + 130).step_by(if miri { 7 } else { 1 }) {
                 index_case(rep, false, std, ext, idx);
                 if std % 7 == 0 || std < 20 {
                     index_case(rep, true, std, ext, idx);
